@@ -259,9 +259,12 @@ class M:
             self.value.append(op["v"])
             self.times.append(t)
             self.count += 1
+            self.pruned_now = 0
             while self.times and self.times[0] < t - self.s[2][1]:
                 self.times.pop(0)
                 self.value.pop(0)
+                self.pruned_now += 1
+            self.evicted_at = t
             self.mark(t)
             return True
         if k == "push":
